@@ -239,6 +239,7 @@ type pool struct {
 	nextID   int64
 	scratch  string
 	abandon  int32 // set when the current space is given up after mass failures of confirmed classes
+	known    []string
 
 	mu        sync.Mutex
 	classSeen map[string]int
@@ -257,7 +258,35 @@ type spaceStat struct {
 
 func newPool(r *core.Run) *pool {
 	return &pool{r: r, thorough: r.Thorough(), n: r.Workers, classSeen: map[string]int{}, repeats: map[string]int64{},
-		stats: map[string]*spaceStat{}}
+		stats: map[string]*spaceStat{}, known: knownClasses()}
+}
+
+// knownClasses reads the class globs of the recorded C03 findings.  They are
+// used for ONE thing only: a space is not abandoned because of repeated deaths
+// of a recorded class (the enumeration must go on so that a different failure
+// is still found).  Whether a violation is "known" is decided by core.Finish.
+func knownClasses() []string {
+	b, err := os.ReadFile(core.VerifDir + "/known_findings.jsonl")
+	if err != nil {
+		return nil
+	}
+	var out []string
+	for _, ln := range strings.Split(string(b), "\n") {
+		var k struct{ Status, Property, Class string }
+		if json.Unmarshal([]byte(strings.TrimSpace(ln)), &k) == nil && k.Status == "known" && k.Property == "C03" {
+			out = append(out, k.Class)
+		}
+	}
+	return out
+}
+
+func (pl *pool) isKnown(class string) bool {
+	for _, g := range pl.known {
+		if core.Glob(g, class) {
+			return true
+		}
+	}
+	return false
 }
 
 type wslot struct {
@@ -432,7 +461,7 @@ func (pl *pool) confirm(w *wslot, sp *space, aux string, idx int64, first *failu
 	seen := pl.classSeen[class]
 	if seen >= 3 {
 		pl.repeats[class]++
-		if pl.repeats[class] >= 8 {
+		if pl.repeats[class] >= 8 && !pl.isKnown(class) {
 			// a systematic failure: three confirmed cases and eight more deaths of
 			// the same class; enumerating the rest of this space only costs time
 			atomic.StoreInt32(&pl.abandon, 1)
